@@ -238,13 +238,46 @@ def symncoRegroupC {α : Type} (nStart nAug n : Nat) (x : Nat → α) : Ten3 α 
     let a := if nAug = 0 then 1 else nAug
     ⟨n / s / a, a, s, unbatch2 a s n x⟩
 
-/-- the training branch of `SymNCO.shared_step` as coded -/
+/-- one symmetricity term as coded: `advantage = reward - reward.mean(dim, keepdim=True)`, `loss = -advantage * ll`,
+`return loss.mean()`; `tag = 100·adv + 10·sign + reduction` (0 = the shape at the pinned commit) -/
+def symTermC (tag : Nat) (dim1 : Bool) (R L : Ten3 (Dual K)) : Dual K :=
+  let base : Dual K := if dim1 then lossDim1 R L else lossDimLast R L
+  match tag with
+  | 0 => base
+  | 10 => -base                                                     -- the minus sign dropped
+  | 200 => -base                                                    -- mean − reward
+  | 1 => Dual.smul ((R.nb * R.ns * R.na : Nat) : K) base           -- `.sum()` instead of `.mean()`
+  | _ => base
+
+/-- the training branch of `SymNCO.shared_step` as coded: regrouping tuple, default axes of the two loss functions,
+their three statements, the guards `n_start > 1` / `n_aug > 1`, and the total -/
 def symncoLossC (nStart nAug n : Nat) (alpha beta : K) (reward ll : Nat → Dual K) (inv : Dual K) : SymOut K :=
   let R := symncoRegroupC nStart nAug n reward
   let L := symncoRegroupC nStart nAug n ll
-  let ps : Dual K := if 1 < nStart then lossDim1 R L else 0
-  let ss : Dual K := if 1 < nAug then lossDimLast R L else 0
-  ⟨ps + Dual.smul beta ss + Dual.smul alpha inv, ps, ss⟩
+  let ps : Dual K := if Params.trainSymGuardPs.evalNat nStart 1
+    then symTermC Params.trainSymPsBodyTag (decide (Params.trainSymPsDim = 1)) R L else 0
+  let ss : Dual K := if Params.trainSymGuardSs.evalNat nAug 1
+    then symTermC Params.trainSymSsBodyTag (!Params.trainSymSsDimLast) R L else 0
+  let total : Dual K := match Params.trainSymTotalTag with
+    | 1 => ps + Dual.smul beta ss - Dual.smul alpha inv
+    | 2 => ps + Dual.smul beta ss
+    | _ => ps + Dual.smul beta ss + Dual.smul alpha inv
+  ⟨total, ps, ss⟩
+
+/-- `invariance_loss`: the two rows of the projected embeddings `[A·B, …]` whose cosine similarity is the `(b, i)` term:
+`rearrange(proj, "(b a) ... -> b a ...")` reads row `b·A + i` as "(instance b, augmentation i)" -/
+def invRowsC (A B b i : Nat) : Nat × Nat :=
+  if Params.trainSymInvBatchOuter then (b * A + 0, b * A + i) else (0 * B + b, i * B + b)
+
+/-! ### A2C optimizer configuration -/
+namespace A2C
+/-- `A2C.configure_optimizers`: the parameter groups `(is it the policy?, learning rate)` in order -/
+def groupsC (actorLr : K) (criticLr : Option K) : List (Bool × K) :=
+  let c := match criticLr with
+    | some c => c
+    | none => if Params.trainA2cCriticKwDefault then actorLr else 0
+  if Params.trainA2cGroups then [(true, actorLr), (false, c)] else [(true, c), (false, actorLr)]
+end A2C
 
 /-! ### greedy-rollout baseline -/
 namespace RolloutBl
